@@ -366,6 +366,15 @@ func RunC10(ep *core.Episode) {
 						if d < 0 {
 							d = 0
 						}
+						if tp.Choose("tricklekind", 3) == 2 && base > 0 && hdrEnd < len(full) {
+							// the header arrives late but in time, the body later than the deadline counted from the
+							// start of the exchange, yet sooner than a deadline counted from the header would allow
+							ep.Fault("fault:late-header-slow-body")
+							p.B.Send(full[:hdrEnd], base*8/10)
+							p.B.Send(full[hdrEnd:], base*15/10) // delays count from now: 0.8 T for the header, 1.5 T for the body
+							pr.lastClean = true                 // if the client's deadline lets it accept all of it
+							break
+						}
 						p.B.Send(full[:cut], 0)
 						p.B.Send(full[cut:], d)
 						pr.lastClean = true // if the client still accepts it in time
